@@ -59,10 +59,10 @@ deriving DecidableEq, Repr
 
 def blank (n : Name) : Bool := n = [] || n = ['_']
 
-def argP : Name := "arg".toList
-def retP : Name := "ret".toList
-def ctxP : Name := "ctx".toList
-def errP : Name := "err".toList
+def argP : Name := ['a', 'r', 'g']
+def retP : Name := ['r', 'e', 't']
+def ctxP : Name := ['c', 't', 'x']
+def errP : Name := ['e', 'r', 'r']
 
 /-- first loop of `ensureNames` (= `keepUserNames` after the repair): named parameters -/
 def keepNamed (gs : Deduper → Name → Bool → Name × Deduper) (d : Deduper) : List P → List P × Deduper
@@ -76,16 +76,20 @@ def keepNamed (gs : Deduper → Name → Bool → Name × Deduper) (d : Deduper)
       let r := keepNamed gs g.2 ps
       ({ p with name := g.1 } :: r.1, r.2)
 
+/-- the name an unnamed / `_` parameter at index `i` of `len` gets -/
+def genName (gs : Deduper → Name → Bool → Name × Deduper) (isOutput : Bool) (len : Nat)
+    (d : Deduper) (i : Nat) (p : P) : Name × Deduper :=
+  if isOutput && len - 1 = i && p.isErr then gs d errP false
+  else if !isOutput && i = 0 && p.isCtx then gs d ctxP false
+  else gs d (if isOutput then retP else argP) true
+
 /-- second loop of `ensureNames`: unnamed / `_` parameters; `i` is the index, `len = len(ps)` -/
 def fillBlank (gs : Deduper → Name → Bool → Name × Deduper) (isOutput : Bool) (len : Nat)
     (d : Deduper) (i : Nat) : List P → List P × Deduper
   | [] => ([], d)
   | p :: ps =>
     if blank p.name then
-      let g :=
-        if isOutput && len - 1 = i && p.isErr then gs d errP false
-        else if !isOutput && i = 0 && p.isCtx then gs d ctxP false
-        else gs d (if isOutput then retP else argP) true
+      let g := genName gs isOutput len d i p
       let r := fillBlank gs isOutput len g.2 (i + 1) ps
       ({ p with name := g.1 } :: r.1, r.2)
     else
@@ -131,9 +135,10 @@ def ValidIdent (n : Name) : Prop :=
 
 /-- a named type as `namedTypeToInterface` sees it: its own methods in declaration order (for an
 interface type: its complete method set) and the embedded fields whose type is a named type or a
-pointer to one, in field order -/
-inductive Ty (σ : Type) where
-  | mk (own : List (Name × σ)) (emb : List (Ty σ))
+pointer to one, in field order; `self` is what `ExtractTypeRef(t)` is called with for the
+`TypeRef` field -/
+inductive Ty (ρ σ : Type) where
+  | mk (self : ρ) (own : List (Name × σ)) (emb : List (Ty ρ σ))
 
 /-- `(*types.Func).Exported()` -/
 def exported : Name → Bool
@@ -182,35 +187,36 @@ def visitOwn {σ τ S : Type} (visit : S → σ → S × τ) (o : Opts) : S → 
 mutual
 /-- `namedTypeToInterface` (repaired).  `propagate = false` gives the pinned commit's algorithm,
 which forgets the names an embedded type found ambiguous. -/
-def nti {σ τ S : Type} (visit : S → σ → S × τ) (propagate : Bool) (o : Opts) : S → Ty σ → S × IfaceR τ
-  | s, .mk own emb =>
-    let r := visitOwn visit o s own
+def nti {ρ σ τ S : Type} (enter : S → ρ → S) (visit : S → σ → S × τ) (propagate : Bool) (o : Opts) :
+    S → Ty ρ σ → S × IfaceR τ
+  | s, .mk self own emb =>
+    let r := visitOwn visit o (enter s self) own
     if !o.embedded then (r.1, ⟨r.2, []⟩)
     else
-      let e := ntiEmb visit propagate o r.1 emb ⟨r.2.map (·.1), [], []⟩
+      let e := ntiEmb enter visit propagate o r.1 emb ⟨r.2.map (·.1), [], []⟩
       (e.1, ⟨r.2 ++ e.2.toAdd, e.2.amb⟩)
 /-- `for i := 0; i < s.NumFields(); i++` over the embedded fields -/
-def ntiEmb {σ τ S : Type} (visit : S → σ → S × τ) (propagate : Bool) (o : Opts) :
-    S → List (Ty σ) → Merge τ → S × Merge τ
+def ntiEmb {ρ σ τ S : Type} (enter : S → ρ → S) (visit : S → σ → S × τ) (propagate : Bool) (o : Opts) :
+    S → List (Ty ρ σ) → Merge τ → S × Merge τ
   | s, [], st => (s, st)
   | s, t :: ts, st =>
-    let r := nti visit propagate o s t
+    let r := nti enter visit propagate o s t
     let st1 := r.2.methods.foldl mergeStep st
     let st2 := if propagate then r.2.amb.foldl ambStep st1 else st1
-    ntiEmb visit propagate o r.1 ts st2
+    ntiEmb enter visit propagate o r.1 ts st2
 end
 
 /-- the merge on method names alone -/
-def ifaceNames (propagate : Bool) (o : Opts) (t : Ty Unit) : List Name :=
-  (nti (fun (_ : Unit) (_ : Unit) => ((), ())) propagate o () t).2.methods.map (·.1)
+def ifaceNames (propagate : Bool) (o : Opts) (t : Ty Unit Unit) : List Name :=
+  (nti (fun (_ : Unit) (_ : Unit) => ()) (fun (_ : Unit) (_ : Unit) => ((), ())) propagate o () t).2.methods.map (·.1)
 
 /-! ### specification for (b) -/
 
 mutual
 /-- every method name defined by the type or anywhere under its embedded fields -/
-def allNames {σ : Type} : Ty σ → List Name
-  | .mk own emb => own.map (·.1) ++ allNamesL emb
-def allNamesL {σ : Type} : List (Ty σ) → List Name
+def allNames {ρ σ : Type} : Ty ρ σ → List Name
+  | .mk _ own emb => own.map (·.1) ++ allNamesL emb
+def allNamesL {ρ σ : Type} : List (Ty ρ σ) → List Name
   | [] => []
   | t :: ts => allNames t ++ allNamesL ts
 end
@@ -218,47 +224,47 @@ end
 mutual
 /-- the property text, applied recursively: a type's interface has its own methods and the names
 that are defined under exactly one embedded field and are in that field's interface -/
-def specHas {σ : Type} : Ty σ → Name → Bool
-  | .mk own emb, n => (own.map (·.1)).contains n || (specCount emb n == 1 && specAny emb n)
+def specHas {ρ σ : Type} : Ty ρ σ → Name → Bool
+  | .mk _ own emb, n => (own.map (·.1)).contains n || (specCount emb n == 1 && specAny emb n)
 /-- number of embedded fields under which `n` is defined -/
-def specCount {σ : Type} : List (Ty σ) → Name → Nat
+def specCount {ρ σ : Type} : List (Ty ρ σ) → Name → Nat
   | [], _ => 0
   | t :: ts, n => (if (allNames t).contains n then 1 else 0) + specCount ts n
 /-- `n` is in the interface of an embedded field under which it is defined -/
-def specAny {σ : Type} : List (Ty σ) → Name → Bool
+def specAny {ρ σ : Type} : List (Ty ρ σ) → Name → Bool
   | [], _ => false
   | t :: ts, n => specHas t n || specAny ts n
 end
 
 mutual
 /-- Go's selector rule: number of methods called `n` at embedding depth exactly `d` -/
-def countAt {σ : Type} : Nat → Ty σ → Name → Nat
-  | 0, .mk own _, n => if (own.map (·.1)).contains n then 1 else 0
-  | d + 1, .mk _ emb, n => countAtL d emb n
-def countAtL {σ : Type} : Nat → List (Ty σ) → Name → Nat
+def countAt {ρ σ : Type} : Nat → Ty ρ σ → Name → Nat
+  | 0, .mk _ own _, n => if (own.map (·.1)).contains n then 1 else 0
+  | d + 1, .mk _ _ emb, n => countAtL d emb n
+def countAtL {ρ σ : Type} : Nat → List (Ty ρ σ) → Name → Nat
   | _, [], _ => 0
   | d, t :: ts, n => countAt d t n + countAtL d ts n
 end
 
 /-- `x.n` is a legal method selector on `T` (hence in the method set of `*T`): exactly one `n` at
 the shallowest depth that has one -/
-def GoPromotes {σ : Type} (t : Ty σ) (n : Name) : Prop :=
+def GoPromotes {ρ σ : Type} (t : Ty ρ σ) (n : Name) : Prop :=
   ∃ d, countAt d t n = 1 ∧ ∀ d', d' < d → countAt d' t n = 0
 
 mutual
-def height {σ : Type} : Ty σ → Nat
-  | .mk _ emb => heightL emb + 1
-def heightL {σ : Type} : List (Ty σ) → Nat
+def height {ρ σ : Type} : Ty ρ σ → Nat
+  | .mk _ _ emb => heightL emb + 1
+def heightL {ρ σ : Type} : List (Ty ρ σ) → Nat
   | [] => 0
   | t :: ts => max (height t) (heightL ts)
 end
 
 /-- executable form of `GoPromotes`, scanning depths `d, d+1, …` -/
-def goPromotesFrom {σ : Type} (t : Ty σ) (n : Name) : Nat → Nat → Bool
+def goPromotesFrom {ρ σ : Type} (t : Ty ρ σ) (n : Name) : Nat → Nat → Bool
   | 0, _ => false
   | fuel + 1, d => if countAt d t n = 0 then goPromotesFrom t n fuel (d + 1) else countAt d t n = 1
 
-def goPromotes {σ : Type} (t : Ty σ) (n : Name) : Bool := goPromotesFrom t n (height t + 1) 0
+def goPromotes {ρ σ : Type} (t : Ty ρ σ) (n : Name) : Bool := goPromotesFrom t n (height t + 1) 0
 
 /-! ## (c) type references and imports -/
 
@@ -387,8 +393,9 @@ def methodFromSignature (gs : List P → List P → List P × List P) (ih : IH) 
   (b.1, ⟨zipNames nm.1 (a.2.map (·.2)), s.variadic, zipNames nm.2 (b.2.map (·.2))⟩)
 
 /-- `FindInterface` on an already located type -/
-def findInterface (legacy : Bool) (o : Opts) (ih : IH) (t : Ty Sig) : IH × IfaceR RMeth :=
-  nti (methodFromSignature (if legacy then ensureParamNamesLegacy else ensureParamNames))
+def findInterface (legacy : Bool) (o : Opts) (ih : IH) (t : Ty GoType Sig) : IH × IfaceR RMeth :=
+  let gs := if legacy then ensureParamNamesLegacy else ensureParamNames
+  nti (fun ih self => (extract gs ih self).1) (methodFromSignature (if legacy then ensureParamNamesLegacy else ensureParamNames))
     (!legacy) o ih t
 
 /-- `GetActive` (unsorted) -/
